@@ -298,7 +298,7 @@ func c16Flags(c *Ctx) {
 		ok := false
 		for _, in := range instrsWhere(fn, isReturn) {
 			ret := in.(*ssa.Return)
-			if bo, isB := ret.Results[0].(*ssa.BinOp); isB && bo.Op == token.EQL && isZero(bo.Y) {
+			if bo, isB := unspill(ret, 0).(*ssa.BinOp); isB && bo.Op == token.EQL && isZero(bo.Y) {
 				if ld, isL := bo.X.(*ssa.Call); isL && isAtomicCall(ld.Common(), "Load") && isHealthFlagsField(ld.Common().Args[0]) {
 					ok = true
 				}
@@ -312,7 +312,7 @@ func c16Flags(c *Ctx) {
 		ok := false
 		for _, in := range instrsWhere(fn, isReturn) {
 			ret := in.(*ssa.Return)
-			if bo, isB := ret.Results[0].(*ssa.BinOp); isB && isZero(bo.Y) && (bo.Op == token.GTR || bo.Op == token.NEQ) {
+			if bo, isB := unspill(ret, 0).(*ssa.BinOp); isB && isZero(bo.Y) && (bo.Op == token.GTR || bo.Op == token.NEQ) {
 				if and, isA := bo.X.(*ssa.BinOp); isA && and.Op == token.AND {
 					for _, pr := range [][2]ssa.Value{{and.X, and.Y}, {and.Y, and.X}} {
 						if ld, isL := pr[0].(*ssa.Call); isL && isAtomicCall(ld.Common(), "Load") && isHealthFlagsField(ld.Common().Args[0]) && isMaskOf(pr[1], fn.Params[1], false) {
@@ -817,7 +817,7 @@ func c16ThresholdsPositive(c *Ctx) {
 					okAll, n := true, 0
 					for _, in := range instrsWhere(cal, isReturn) {
 						n++
-						if !positive(in.(*ssa.Return).Results[ex.Index], in.Block(), d+1) {
+						if !positive(unspill(in.(*ssa.Return), ex.Index), in.Block(), d+1) {
 							okAll = false
 						}
 					}
@@ -881,14 +881,14 @@ func c16ThresholdsPositive(c *Ctx) {
 					if call, isC := x.Tuple.(*ssa.Call); isC {
 						if cal := call.Common().StaticCallee(); cal != nil && len(cal.Blocks) > 0 {
 							for _, r := range instrsWhere(cal, isReturn) {
-								collect(r.(*ssa.Return).Results[x.Index], d+1)
+								collect(unspill(r.(*ssa.Return), x.Index), d+1)
 							}
 						}
 					}
 				case *ssa.Call:
 					if cal := x.Common().StaticCallee(); cal != nil && len(cal.Blocks) > 0 && cal.Signature.Results().Len() == 1 {
 						for _, r := range instrsWhere(cal, isReturn) {
-							collect(r.(*ssa.Return).Results[0], d+1)
+							collect(unspill(r.(*ssa.Return), 0), d+1)
 						}
 					}
 				case *ssa.Field:
